@@ -230,3 +230,8 @@ package sgip12
 //@     invariant @dec forall j int :: 0 <= j && j < i ==> p.UserNumber[j] == gq.UserNumber[j]
 //@     invariant @safe !packet.rfailed(b) ==> (forall j int :: 0 <= j && j < i ==> nonul(p.UserNumber[j]) && len(p.UserNumber[j]) <= 21)
 //@     decreases int(p.UserCount) - i
+
+// ---------------------------------------------------------------- constructor (C10)
+//@ func NewBind
+//@   props C10
+//@   ensures [C10 header] result != nil && result.Header.CommandID == sgip.SGIP_BIND && result.Header.Sequence[0] == nodeID && result.Header.Sequence[2] == seqID && result.Name == account && result.Password == passwd
